@@ -36,10 +36,21 @@ structure Store where
   tasks       : List Nat := []                -- hashes the replicator has ever queued
 deriving Repr, Inhabited
 
-def updateIndex (k : Kind) (idx : KV) (L : Log) : KV :=
+/-- `updateIndex` as it was before the `fix:` commit of finding F45: the key-value and document indices
+patched the map the previous update had left (it was never cleared) -/
+def updateIndex0 (k : Kind) (idx : KV) (L : Log) : KV :=
   match k with
   | .kv => kvUpdate idx (values L)
   | .doc => docUpdate idx (values L)
+  | .log => idx
+
+/-- `updateIndex`: the key-value and document views are rebuilt, into a FRESH map, from what the log
+lists now — whatever the previous view was (a `Load` with a limit trims a live log: the keys of the
+trimmed entries must go). The event log has no map. -/
+def updateIndex (k : Kind) (idx : KV) (L : Log) : KV :=
+  match k with
+  | .kv => kvUpdate [] (values L)
+  | .doc => docUpdate [] (values L)
   | .log => idx
 
 /-- `AddOperation` as it was before the `fix:` commit of finding F33: Append → status → put
